@@ -145,12 +145,8 @@ func exec(op string) vlib.Res {
 			return vlib.Res{Impl: "stale-constants", Oracle: "-"}
 		}
 		return subNest(f[2], uint32(vlib.AtoU64(f[3])))
-	case "l3 new":
-		return l3New(f)
-	case "l3 query":
-		return l3Query(f)
-	case "l3 again":
-		return l3Again(f)
+	case "l3 new", "l3 query", "l3 again":
+		return l3Op(f, op)
 	case "loop new":
 		loopResolver = bareResolver(5)
 		loopCtx = context.Background()
@@ -169,6 +165,11 @@ func main() {
 		explore()
 		return
 	}
+	if len(os.Args) > 1 && os.Args[1] == "l3serve" {
+		l3Serve()
+		return
+	}
+	defer func() { child.kill() }()
 	vlib.Main(&vlib.Driver{Facts: facts, Exec: exec, Gen: gen})
 }
 
